@@ -186,8 +186,7 @@ func RunMPTHistory(w *tr.Writer, in *tr.Interner, st *MPTStats, tid int, cfgIdx 
 		switch op.Op {
 		case "ins":
 			res = Guard(func() string {
-				pp := append([]byte(nil), p...)
-				r, err := env.Trie.Insert(util.Path(pp), Val(ValBytes(op.V)))
+				r, err := InsertScribbled(env.Trie, p, ValBytes(op.V))
 				retRoot = r
 				return ResClass(err)
 			})
@@ -427,7 +426,7 @@ func RunMPTBulk(w *tr.Writer, st *MPTStats, tid int, r *rand.Rand) {
 			}
 			continue
 		}
-		if _, err := env.Trie.Insert(util.Path(append([]byte(nil), p...)), Val(v)); err != nil {
+		if _, err := InsertScribbled(env.Trie, p, v); err != nil {
 			panic(err)
 		}
 		want[string(p)] = v
